@@ -690,6 +690,78 @@ def op_routes(op):
     return out
 
 
+# ------------------------------------------------------------------ process-wide mutable state, in-process repetition
+def state_fingerprint():
+    """Every module-level and class-level dict / list / set of the loaded xsdata.* modules: (kind, size, keys).
+    A generation run must not leave anything behind that a later run in the same interpreter could read."""
+    import collections
+
+    def summary(v):
+        if isinstance(v, dict):
+            return ["dict", len(v), sorted(repr(k)[:80] for k in list(v)[:400])]
+        if isinstance(v, (set, frozenset)):
+            return ["set", len(v), sorted(repr(k)[:80] for k in list(v)[:400])]
+        if isinstance(v, (list, collections.deque)):
+            return ["list", len(v), []]
+        return None
+
+    out = {}
+    for mname, mod in sorted(sys.modules.items()):
+        if mod is None or not (mname == "xsdata" or mname.startswith("xsdata.")):
+            continue
+        for k, v in list(vars(mod).items()):
+            if k.startswith("__") and k.endswith("__") and not k.startswith("__DataType"):
+                continue
+            sm = summary(v)
+            if sm is not None:
+                out[mname + "." + k] = sm
+            if isinstance(v, type) and getattr(v, "__module__", None) == mname:
+                for ck_, cv in list(vars(v).items()):
+                    if ck_.startswith("__") and ck_.endswith("__"):
+                        continue
+                    sm = summary(cv)
+                    if sm is not None:
+                        out[mname + "." + v.__qualname__ + "." + ck_] = sm
+    return out
+
+
+def state_diff(a, b):
+    out = []
+    for k in sorted(set(a) | set(b)):
+        x, y = a.get(k), b.get(k)
+        if x is None:
+            continue  # module imported lazily during the run: no earlier state to compare with
+        if y is None or x[:2] != y[:2] or x[2] != y[2]:
+            new = sorted(set((y or [0, 0, []])[2]) - set(x[2]))[:6]
+            out.append({"where": k, "before": x[:2], "after": (y or [None, None])[:2], "new_keys": new})
+    return out
+
+
+def op_interleave(op):
+    """Several generation runs one after the other in THIS interpreter; state fingerprint around each."""
+    import importlib
+    import pkgutil
+
+    import codegen_run
+    import xsdata
+    # load everything first, so that the fingerprint taken before the first run already covers every module
+    for m in pkgutil.walk_packages(xsdata.__path__, "xsdata."):
+        if m.name in ("xsdata.__main__", "xsdata.cli", "xsdata.utils.click"):
+            continue
+        try:
+            importlib.import_module(m.name)
+        except Exception:  # noqa  (optional dependencies)
+            pass
+    codegen_run._install()
+    results, growth = [], []
+    for i, job in enumerate(op["runs"]):
+        before = state_fingerprint()
+        results.append(op_pipeline(job))
+        d = state_diff(before, state_fingerprint())
+        growth.append(d)
+    return {"results": results, "state_changes": growth}
+
+
 def op_config_roundtrip(op):
     """GeneratorConfig built from options -> write -> text -> read: are they equal?"""
     import dataclasses
@@ -728,7 +800,7 @@ def op_config_roundtrip(op):
 
 OPS = {"scc": op_scc, "topo": op_topo, "clusters": op_clusters, "class_list": op_class_list, "types": op_types,
        "sort_types_direct": op_sort_types_direct, "reset": op_reset, "imports": op_imports, "resolver": op_resolver, "pipeline": op_pipeline,
-       "config_roundtrip": op_config_roundtrip, "routes": op_routes}
+       "config_roundtrip": op_config_roundtrip, "routes": op_routes, "interleave": op_interleave}
 
 
 def main():
